@@ -329,4 +329,77 @@ def Reg.ttpInitKeep (s : Reg α) (is : List Nat) : Reg α :=
 
 end registration
 
+/-! ### coupled runs: several models solved together through `kawin.GenericModel.Coupler`
+
+GenericModel.py 453-465, `Coupler.postProcess`:
+
+    stop = False
+    for m, xsub in zip(self.models, x):
+        xnew_sub, s = m.postProcess(time, xsub)
+        stop = stop or s
+    ...
+    return xNew, stop
+
+Every coupled model's `postProcess` is called on every step, in list order; a precipitation model tests
+its own registered conditions on its own `pData` row and returns its own stop flag (`stopFlag`), any
+other model (GrainGrowthModel, the `GenericModel` default) returns `False`.  The `DESolver` loop sees
+the combined flag only. -/
+section coupled
+variable {α : Type} [Add α] [Sub α] [Mul α] [Div α] [Neg α] [One α] [LT α] [DecidableLT α]
+
+/-- `stop = False; for ...: stop = stop or s` over the flags the coupled models returned, in list order -/
+def couplerStop (flags : List Bool) : Bool := flags.foldl (fun stop s => stop || s) false
+
+/-- NOT the code (witness of Props/C19): the flag is unpacked straight into `stop`
+(`xnew_sub, stop = m.postProcess(...)`), so every model overwrites the flag of the one before -/
+def couplerStopLast (flags : List Bool) : Bool := flags.foldl (fun _ s => s) false
+
+/-- one coupled model, as far as stopping goes -/
+inductive CModel (α : Type) where
+  | prec (d : PData α) (es : List (Entry α))   -- a precipitation model: its own history and registered conditions
+  | other                                       -- a model whose `postProcess` returns `x, False`
+
+/-- `m.postProcess(time, xsub)` on row n: (the model afterwards, the flag it returns) -/
+def CModel.post (n : Nat) : CModel α → CModel α × Bool
+  | .prec d es => (.prec d (testAll d n es), stopFlag (testAll d n es))
+  | .other => (.other, false)
+
+/-- `Coupler.postProcess` on row n with the combination `comb` of the returned flags:
+(models afterwards, flags returned in list order, combined flag) -/
+def couplerPostWith (comb : List Bool → Bool) (n : Nat) (ms : List (CModel α)) :
+    List (CModel α) × List Bool × Bool :=
+  ((ms.map (CModel.post n)).map Prod.fst, (ms.map (CModel.post n)).map Prod.snd,
+   comb ((ms.map (CModel.post n)).map Prod.snd))
+
+/-- `DESolver.solve` on the coupler: `clock k` = `Coupler.time[k]` (the time handed to every model's
+`postProcess` on step k); returns (last row, stopped early, models) -/
+def coupledRunWith (comb : List Bool → Bool) (clock : Nat → α) (tf : α) :
+    Nat → Nat → List (CModel α) → Nat × Bool × List (CModel α)
+  | 0, k, ms => (k, false, ms)
+  | f+1, k, ms =>
+    if clock k < tf then
+      if (couplerPostWith comb (k+1) ms).2.2 then (k+1, true, (couplerPostWith comb (k+1) ms).1)
+      else coupledRunWith comb clock tf f (k+1) (couplerPostWith comb (k+1) ms).1
+    else (k, false, ms)
+
+/-- the code -/
+def couplerPost (n : Nat) (ms : List (CModel α)) : List (CModel α) × List Bool × Bool :=
+  couplerPostWith couplerStop n ms
+
+def coupledRun (clock : Nat → α) (tf : α) (fuel k : Nat) (ms : List (CModel α)) :
+    Nat × Bool × List (CModel α) :=
+  coupledRunWith couplerStop clock tf fuel k ms
+
+/-- a coupled model after steps 1..k with nothing stopping the run -/
+def CModel.evolved (k : Nat) : CModel α → CModel α
+  | .prec d es => .prec d (evolve d es k)
+  | .other => .other
+
+/-- does this model request the stop after step j (its own and/or rule on its own history)? -/
+def CModel.requestAt (j : Nat) : CModel α → Bool
+  | .prec d es => stopFlag (evolve d es j)
+  | .other => false
+
+end coupled
+
 end KawinV.StopCond
